@@ -10,3 +10,19 @@ package engine
 
 // engine built by the Builder: options present (limits are checked non-negative where a callee needs it)
 //@ pred EngRep(eng flows.Engine) bool := !isnil(eng) && eng.(*engine) != nil && eng.(*engine).options != nil
+
+// ---- C07 / C01: picking the exit of a node
+//@ pred nodeOK(n flows.Node) bool := !isnil(n) && n.(*definition.node) != nil && (forall k int :: 0 <= k && k < len(n.(*definition.node).exits) ==> (!isnil(n.(*definition.node).exits[k]) && n.(*definition.node).exits[k].(*definition.exit) != nil))
+//@ pred routerOK(rt flows.Router) bool := isnil(rt) || (typeis(rt, *routers.SwitchRouter) && casesOK(rt.(*routers.SwitchRouter)) && catsOK(rt.(*routers.SwitchRouter).baseRouter)) || (typeis(rt, *routers.RandomRouter) && rt.(*routers.RandomRouter) != nil && catsOK(rt.(*routers.RandomRouter).baseRouter) && len(rt.(*routers.RandomRouter).categories) >= 1)
+
+//@ func (s *session) pickNodeExit
+//@   forget getText
+//@   requires s != nil && sprint != nil && nodeOK(node) && routerOK(node.(*definition.node).router) && !isnil(run) && RunRep(run.(*runs.run)) && !isnil(step) && step.(*runs.step) != nil
+//@   ensures [no_router_first_exit] (isnil(node.(*definition.node).router) && len(node.(*definition.node).exits) > 0) ==> (isnil(result2) && result0 == node.(*definition.node).exits[0])
+//@   ensures [no_router_no_exit] (isnil(node.(*definition.node).router) && len(node.(*definition.node).exits) == 0) ==> (isnil(result2) && isnil(result0))
+//@   ensures [exit_of_node] !isnil(result0) ==> (exists k int :: 0 <= k && k < len(node.(*definition.node).exits) && node.(*definition.node).exits[k] == result0 && step.(*runs.step).exitUUID == result0.(*definition.exit).uuid)
+//@   ensures [routed] (!isnil(node.(*definition.node).router) && isnil(result2) && !isnil(result0)) ==> (exists br *routers.baseRouter, cu flows.CategoryUUID, m string, op string {routedTo(br, cu, m, op, result0.(*definition.exit).uuid)} :: routedTo(br, cu, m, op, result0.(*definition.exit).uuid))
+//@   checks [no_category_fails_run] (!isnil(node.(*definition.node).router) && isnil(result2) && exitUUID == "") ==> (isnil(result0) && run.(*runs.run).status == flows.RunStatusFailed && step.(*runs.step).exitUUID == old(step.(*runs.step).exitUUID))
+//@ loop 1
+//@   invariant forall k int :: 0 <= k && k <= $i ==> node.(*definition.node).exits[k].(*definition.exit).uuid != exitUUID
+//@   invariant step.(*runs.step).exitUUID == exitUUID
